@@ -266,6 +266,13 @@ auto nikolaev_queue<T, Policies...>::do_pop(SuccessFunc successFunc, EmptyFunc e
       if (!n->_allocated_queue.template dequeue<false, pop_retries>(idx, entries_per_node, remap_shift)) {
         // (7) - this acquire-load synchronizes-with (4)
         const auto next = n->_next.load(std::memory_order_acquire);
+        // _tail must not lag behind the node we are about to unlink; otherwise a push could acquire a
+        // guard to a node that has already been retired (and possibly reclaimed) via _tail.
+        marked_ptr tail = _tail.load(std::memory_order_relaxed);
+        if (tail == n) {
+          // this release-CAS synchronizes-with the acquire-load (1) - same role as (3)
+          _tail.compare_exchange_strong(tail, next, std::memory_order_release, std::memory_order_relaxed);
+        }
         marked_ptr expected = n;
         // (8) - this release-CAS synchronizes-with the acquire-load (6)
         if (_head.compare_exchange_weak(expected, next, std::memory_order_release, std::memory_order_relaxed)) {
